@@ -62,6 +62,7 @@ TS_TABLES = [[0] + [1000 + i for i in range(1, 13)],
              [0, 1, 2, 3, 5, 4294967296, 4294967301, 2 ** 53 + 1, 2 ** 63, 2 ** 63 + 7, 2 ** 64 - 3, 2 ** 64 - 2, 2 ** 64 - 1]]
 IDMAPS = [[0, 1, 2, 3, 4, 5, 6], [7, 8, 12, 13, 20, 21, 22], [98, 99, 100, 101, 102, 103, 104],
           [9998, 9999, 10000, 10001, 10002, 10003, 10004], list(range(99993, 100000))]
+LONG_IDMAPS = [list(range(0, 14)), list(range(95, 109))]      # for the backlog family (more logs than the generator enumerates)
 
 
 def conc_id(a, k):
@@ -106,7 +107,7 @@ class Conc:
         rnd = random.Random(self.params["wseed"])
         self.salt = self.params["salt"]
         self.tst = TS_TABLES[self.params["tst"]]
-        self.idmap = IDMAPS[self.params["idmap"]]
+        self.idmap = IDMAPS[self.params["idmap"]] if not beh.get("long_ids") else LONG_IDMAPS[self.params["idmap"] % len(LONG_IDMAPS)]
         self.use_other = mode == "direct" and src == "T-custom-dir"
         self.ctxs = ENG_CTXS if mode == "engine" else CTXS
         self.pay = ENG_PAYLOADS if mode == "engine" else PAYLOADS
@@ -496,6 +497,27 @@ def campaign(chk, bindir, behs, mode, src, tag, rnd):
     return stats, concs
 
 
+def backlog_behaviours():
+    """A backlog of closed logs cleaned up in ONE pass (9-12 logs, healthy archive directory): written by hand because
+    the generator enumerates fault patterns per log and does not scale beyond 6 logs.  The expectation is the reference
+    machine's: every log below keep_from archived completely, then deleted; recovery returns every entry in log order."""
+    out = []
+    for n, kf in ((9, 9), (10, 10), (12, 12), (12, 10)):
+        steps, entries = [], {}
+        for l in range(n):
+            es = [{"ts": 1 + (l % 5), "c": 1 + l % 3, "t": 1 + l % 2, "id": 10 * l + 1, "p": 1 + l % 4},
+                  {"ts": 2 + (l % 5), "c": 1 + (l + 1) % 3, "t": 1 + (l + 1) % 2, "id": 10 * l + 2, "p": 1 + (l + 1) % 4}]
+            entries[l] = es
+            steps.append({"items": [{"k": "e", "e": e} for e in es], "l": l, "op": "addlog"})
+        steps.append({"dir": "ok", "pre": [], "unblock": [], "block": [], "op": "fault"})
+        steps.append({"kf": kf, "op": "cleanup", "via": "new"})
+        arch = [{"n": [l, entries[l][0]["ts"], entries[l][1]["ts"]], "ok": True, "es": entries[l], "cnt": 2} for l in range(kf)]
+        exp = [{"i": n + 1, "o": {"wal": list(range(n)), "vis": True, "arch": [], "recst": "ok", "rec": []}},
+               {"i": n + 2, "o": {"wal": list(range(kf, n)), "vis": True, "arch": arch, "recst": "ok", "rec": [e for l in range(kf) for e in entries[l]]}}]
+        out.append({"steps": steps, "exp": exp, "long_ids": True})
+    return out
+
+
 def run(tier):
     chk = core.Check(PROP, "model_checking", tier)
     bindir = core.build_harness(("vwalarch",))
@@ -516,6 +538,7 @@ def run(tier):
     r = gen("multi", N=3, InitN=3, Shapes=["two", "bad"], GrowShapes=["one", "bad"], DirFaults=["noRoot", "shardFile"],
             PreKinds=["stale"], MaxSteps=3, StepKinds=["cleanup", "heal", "addlog"], Stride=6 if q else 1, Phase=core.seed())
     plans.append(("R-multi", "direct", r.printed("BEH")))
+    plans.append(("R-backlog", "direct", backlog_behaviours()))
     states += r.distinct
     trans += r.generated
     # the real flush path
